@@ -169,7 +169,7 @@ def check_iter(ctx, w):
     env = expr.FEnv(f.node, params=('type',))
     ys = [expr.nfs(y.value, env) for y in ast.walk(f.node) if isinstance(y, ast.Yield)]
     loops = [n for n in ast.walk(f.node) if isinstance(n, ast.For)]
-    ok = len(loops) == 1 and expr.nfs(loops[0].iter, env) == '_iter_tags(self,type=type)' and \
+    ok = len(loops) == 1 and expr.nfs(loops[0].iter, env) == '_iter_tags(self,type)' and \
         ys == ['DynamicTag(%s,_get_stringtable(self))' % loops[0].target.id]
     ctx.ob('W-ITER', f.construct, 'wraps every raw tag with the selected string table', ok, got=ys)
     f = w.model.func(DYN, 'Dynamic.get_table_offset')
@@ -178,7 +178,7 @@ def check_iter(ctx, w):
     ok = tr.get('ptr') == [('=', 'None'), ('=', 'd_ptr')] and tr.get('offset') == [('=', 'None'), ('=', 'next(address_offsets(elffile,ptr),None)')]
     ctx.ob('W-ITER', f.construct, 'first tag of the type, first mapped offset', ok, got=(tr.get('ptr'), tr.get('offset')))
     loops = [n for n in ast.walk(f.node) if isinstance(n, ast.For)]
-    ok = len(loops) == 1 and expr.nfs(loops[0].iter, env) == '_iter_tags(self,type=tag_name)' and isinstance(loops[0].body[-1], ast.Break)
+    ok = len(loops) == 1 and expr.nfs(loops[0].iter, env) == '_iter_tags(self,tag_name)' and isinstance(loops[0].body[-1], ast.Break)
     ctx.ob('W-ITER', f.construct, 'takes the first matching tag', ok)
 
 
